@@ -40,6 +40,30 @@ CHECKS = {
              "__enter__, __exit__), singly and in pairs; TLC validates clause order, finally-exactly-once, the escaping "
              "exception, the form's value and outer variables against HyCore.",
         note="break/continue/return inside finally, except*, empty else/finally are not generated."),
+    "C12": dict(
+        engine="riders", level="model_checking", design="5.10, 6/C12",
+        technique="static scan of every compiled AST for non-reserved introduced identifiers + get_anon_var stream "
+                  "validated by TLC against HyTempAlloc + final user variables validated against HyCore",
+        text="On the C01 corpus with user names that resemble compiler temporaries, every identifier in the compiled AST "
+             "must be a program name, hy, or _hy_-prefixed; the stream of temporaries issued by each compilation is "
+             "trace-validated by TLC (fresh and reserved); user variables keep their values (HyCore trace validation).",
+        note="Identifier positions scanned are listed in the evidence; attribute chains rooted at hy count as hy."),
+    "C13": dict(
+        engine="riders", level="model_checking", design="5.10, 6/C13",
+        technique="TLC model of the set->sequence conversions in scoping (self-composition) to derive order-sensitive "
+                  "shapes + differential compilation in separate processes under several PYTHONHASHSEED values",
+        text="HyScopeOrder shows which program shapes make emitted name order depend on set iteration; those shapes plus "
+             "the C01 corpus are compiled in separate interpreter processes under 4 (thorough 10) hash seeds and ast.dump "
+             "with positions and marshalled bytecode must be byte-identical.",
+        note="Only PYTHONHASHSEED varies between the processes."),
+    "C14": dict(
+        engine="riders", level="model_checking", design="6/C14",
+        technique="translation validation (compiled AST vs ast.parse(ast.unparse(AST))) on the HyCore corpus, with the "
+                  "unparsed program trace-validated by TLC against HyCore",
+        text="Each corpus program (variable pool with Python keywords and a non-ASCII hyphenated name; fault at each "
+             "effect) is run from the compiled AST and from the re-parsed hy2py text: the text must parse, both runs must "
+             "agree on effect log (with values), globals and exception type, and the re-parsed run is validated by TLC.",
+        note="hy2py's printing path is exercised through hy2py_worker on a sample; CPython's ast.unparse is trusted."),
     "C38": dict(
         engine="gensym", level="model_checking", design="5.8, 6/C38",
         technique="TLC exhaustive interleavings of the op program extracted from gensym's bytecode; "
